@@ -23,14 +23,16 @@ for sid in sorted(os.listdir(os.path.join(ROOT, 'seeded'))):
     rows.append('| %s | %s | %s | %s | `%s` |' % (
         sid, what, ' '.join(sorted(caught)) or '**none**',
         ' '.join(sorted(tried - caught)) or '-', mech))
-head = ('240 independently written breakages (round 1: two per property, ids '
+head = ('280 independently written breakages (round 1: two per property, ids '
         '`Cxx-a/b`; round 2: three per property, ids `Cxx-r2a/b/c`; round 3, '
         'asked for changes that need two coinciding conditions: two per '
         'property, ids `Cxx-r3a/b`; round 4, asked for two cooperating edits '
         '(a) and an error / reuse / exact-boundary path (b): ids '
         '`Cxx-r4a/b`; round 5, agents were told that a strong randomized '
         'harness exists and asked for changes it would be likely to miss: '
-        'three per property, ids `Cxx-r5a/b/c`), all '
+        'three per property, ids `Cxx-r5a/b/c`; round 6, the same with the '
+        'hint to use time, global state, odd Python objects, interpreter '
+        'flags and stream kinds: two per property, ids `Cxx-r6a/b`), all '
         'confirmed (apply, 176 repository tests pass, demonstration fails '
         'with / passes without). "caught by" lists every quick check that '
         'reported a VIOLATION on a scratch copy with the patch applied (the '
@@ -38,7 +40,7 @@ head = ('240 independently written breakages (round 1: two per property, ids '
         'run); "also run, silent" the others that were tried. The last '
         'column is the first mechanism the tagged check printed.\n\n'
         'First-pass result before any strengthening: round 1 36/40 caught by '
-        'the tagged check, round 2 44/60, round 3 27/40, round 4 30/40, round 5 21/60. Each miss was '
+        'the tagged check, round 2 44/60, round 3 27/40, round 4 30/40, round 5 21/60, round 6 7/40. Each miss was '
         'analysed and the '
         'check strengthened (never the seeded change adapted): C02 codec '
         'spelling sweep; C07 exact-byte-count and mid-line-cut mechanisms; '
@@ -85,8 +87,22 @@ head = ('240 independently written breakages (round 1: two per property, ids '
         '70 kB; C18 structural view invariants, in-place list edits, '
         'None-valued options, integer-key metadata; C19 several perturbation '
         'styles, spelled encodings stored verbatim; C20 markdown preambles '
-        'with fenced code, one-line diffs, "GIT binary patch". After that '
-        '233 of 240 are caught by their tagged check; the other seven '
+        'with fenced code, one-line diffs, "GIT binary patch". (round 6) the '
+        'process and usage axes of section 2.8: python -O shards, hostile '
+        'warm-up shards, the seeded baton scheduler and interleaved '
+        'generators, exotic argument objects, real / compressed streams, '
+        'retained write buffers, warnings-as-errors on C09\'s weak oracle, '
+        'sizes beyond 8 MiB / 1 MiB headers / 4 MiB split buffers, digit runs '
+        'beyond the int<->str limit, Unicode confusables of grammar '
+        'characters (C11), unpadded blank lines in indented preambles (C03, '
+        'C06), float statistics (C13), writer-parameter keys in options and '
+        'nested default_value (C18), denotation pairs such as {1: x} / '
+        '{"1": x} and [..] / (..) (C19), nesting-depth sweep (C08), late '
+        'codecs (C15). After that '
+        '270 of 280 are caught by their tagged check; three of round 6 are '
+        'recorded as not claimed (C06-r6b is the same change as the allowed '
+        'patch P8-a; C10-r6a needs -W error on legal input; C10-r6b needs a '
+        'stream without tell()), and the other seven '
         "(C04-r4a encoding='', C02-r5a UTF-7, C03-r5a / C06-r5c "
         'under-indented foreign lines, C10-r3a / C10-r4b / C04-r5b second '
         'iteration of one reader object) only manifest outside the quantifier '
